@@ -34,12 +34,17 @@ def mods():
         for k in [k for k in sys.modules if k == "pdpy11" or k.startswith("pdpy11.")]:
             if not getattr(sys.modules[k], "__file__", "").startswith(str(REPO)):
                 del sys.modules[k]
+        import importlib
         import pdpy11  # noqa
-        from pdpy11 import bk_encoding, parser, reports, compiler, deferred, formats  # noqa
+        from pdpy11 import parser, reports, compiler  # noqa   (the public entry points every check needs)
         if not pdpy11.__file__.startswith(str(REPO)):
             raise MachineryError(f"pdpy11 imported from {pdpy11.__file__}, expected {REPO}")
-        _mods = {"parser": parser, "reports": reports, "compiler": compiler, "deferred": deferred,
-                 "formats": formats, "bk_encoding": bk_encoding}
+        _mods = {"parser": parser, "reports": reports, "compiler": compiler}
+        for opt in ("bk_encoding", "deferred", "formats"):       # internals: used when present, never required
+            try:
+                _mods[opt] = importlib.import_module("pdpy11." + opt)
+            except Exception:
+                _mods[opt] = None
     return _mods
 
 
